@@ -1629,10 +1629,18 @@ HttpHeaderEntry::parse(const char *field_start, const char *field_end, const htt
         theName = Http::HeaderLookupTable.lookup(id).name;
 
     /* trim field value */
-    while (value_start < field_end && xisspace(*value_start))
+    // RFC 9110 section 5.5: only SP and HTAB are optional whitespace. Around the
+    // framing-sensitive Content-Length and Transfer-Encoding values nothing else
+    // (VT, FF, CR, LF) may be dropped silently: "chunked<VT>" is not "chunked".
+    const bool framingField = (id == Http::HdrType::CONTENT_LENGTH || id == Http::HdrType::TRANSFER_ENCODING);
+    const auto trimmable = [framingField](const char c) {
+        return framingField ? (c == ' ' || c == '\t') : bool(xisspace(c));
+    };
+
+    while (value_start < field_end && trimmable(*value_start))
         ++value_start;
 
-    while (value_start < field_end && xisspace(field_end[-1]))
+    while (value_start < field_end && trimmable(field_end[-1]))
         --field_end;
 
     if (field_end - value_start > 65534) {
